@@ -119,6 +119,10 @@ def run(chk):
             x1 = find(idt, lambda x: isinstance(x, tuple) and len(x) == 3 and x[0] == "field" and x[2] == "id" and has(x, lambda y: y == ("field", resp_t, "credential")))
             x2 = find(raw, lambda x: isinstance(x, tuple) and len(x) == 3 and x[0] == "field" and x[2] == "id" and has(x, lambda y: y == ("field", resp_t, "credential")))
             ok = x1 is not None and flow.strip_sites(x1) == flow.strip_sites(x2) and is_call(idt, "encoding::base64url")
+            # ... and nothing else can stand in for it (no selection between the signing credential's id and another value)
+            from .common import altered_uses
+            alt = (altered_uses(idt, [x1]) + altered_uses(raw, [x1])) if x1 is not None else []
+            ok = ok and not alt
             chk.ob("R3 client", "R3|Client::authenticate|id-rawId-same", bool(ok), where(au, line=au.blocks[bb2]["stmts"][i2]["line"]), "id = %s ; rawId = %s" % (flow.term_str(idt)[:120], flow.term_str(raw)[:120]))
             # request: rp id and allow list
             rq = dict(req[3]) if req[0] == "agg" else {}
